@@ -70,7 +70,7 @@ def gen_case(seed):
         elif k == "Product" and doms:
             doms.append(add(["Product", [r.choice(doms) for _ in range(2)]]))
         elif k == "Op":
-            kind = r.choice(["SumOp", "SumOp", "ReshapeOp", "GetitemOp", "GetsliceOp", "GetsliceOp", "UnsqueezeOp"])
+            kind = r.choice(["SumOp", "SumOp", "ReshapeOp", "GetitemOp", "GetsliceOp", "GetsliceOp", "GetsliceOp", "GetsliceOp", "UnsqueezeOp"])
             # -1 and -2 have the same Python hash; so have the tuples (-1,) and (-2,)
             params = {"SumOp": [r.choice([None, 0, -1, -2, [0, 1], [-1], [-2]]), r.choice([False, True])], "ReshapeOp": [r.choice([[2, 3], [6], [3, 2], [-1], [2, -1]])],
                       "GetitemOp": [r.choice([0, 1, 2])], "GetsliceOp": [r.choice(SLICE_SPECS)], "UnsqueezeOp": [r.choice([-1, -2, 0, 1])]}[kind]
@@ -409,7 +409,7 @@ class C07(Prop):
         "CPython reference counting + gc.collect() make reclamation deterministic; identity is demanded for terms built under reflect or lazily (eager results that allocate arrays are not expected to be identical)",
         "parametrised types are cached with lru_cache/WeakValueDictionary and are only required to be identical, not reclaimed",
     )
-    cases = {"quick": 1500, "thorough": 40000}
+    cases = {"quick": 2400, "thorough": 40000}
 
     def strategy(self, tier):
         return st.integers(0, 2**40).map(robust_gen(gen_case))
